@@ -14,7 +14,7 @@ enum { PUSH_S, POP_S, PUSH_W, POP_W };
 //  * weak operations may fail spuriously (a failed weak op is always legal), but may never succeed wrongly
 //  * if `inflight_slack`: a failed push is legal when size + (#operations of other threads overlapping it) >= capacity
 struct BoundedFifoSpec {
-  uint8_t q[10];
+  uint8_t q[12];
   int n = 0;
   int cap = 0;
   bool inflight_slack = false;
@@ -75,7 +75,22 @@ void bounded_test() {
   const int T = (int)opt("T", 2), m = (int)opt("m", 2), cap = (int)opt("cap", 2);
   const int wrap = (int)opt("wrap", 0);
   const int prefill = (int)opt("prefill", -1) >= 0 ? (int)opt("prefill", 0) : choose(cap + 1);
-  hx::Program p = hx::choose_program(T, m, A::nops, true);
+  hx::Program p;
+  int len[8];
+  for (int t = 0; t < 8; t++) len[t] = m;
+  if (opt("fixed", 0) == 1) {
+    // adversarial family "lapping the ring": one pusher, one thread that pushes four times (one success, then
+    // rejected pushes that walk the index ring), one popper; program lengths differ per thread
+    p.T = 3;
+    p.m = 4;
+    len[0] = 1; len[1] = 4; len[2] = 1;
+    p.op[0][0] = PUSH_S;
+    for (int i = 0; i < 4; i++) p.op[1][i] = PUSH_S;
+    p.op[2][0] = POP_S;
+  } else {
+    p = hx::choose_program(T, m, A::nops, true);
+  }
+  const int NT = opt("fixed", 0) ? p.T : T;
   typename A::Q* q = A::make(cap);
   const int rcap = A::capacity(*q, cap);
   int expect = 1;
@@ -101,13 +116,21 @@ void bounded_test() {
     apply(POP_S, 0);
   }
   for (int i = 0; i < prefill; i++) apply(PUSH_S, next++);
-  for (int t = 0; t < T; t++) {
-    int base = next + t * m;
-    spawn([p, t, m, base, apply] {
-      for (int i = 0; i < m; i++) apply(p.op[t][i], base + i);
+  for (int t = 0; t < NT; t++) {
+    int base = next + t * 4;
+    int n = len[t];
+    spawn([p, t, n, base, apply] {
+      for (int i = 0; i < n; i++) apply(p.op[t][i], base + i);
     });
   }
   join_all();
+  // capacity conservation: at quiescence the ring must accept pushes until it really holds `capacity` elements
+  // (a slot index leaked by a lost update makes the queue report "full" too early, for ever)
+  for (int i = 0; i <= rcap; i++) {
+    int before = history_size();
+    apply(PUSH_S, 20 + i);
+    if (history_at(before).r0 == 0) break;
+  }
   for (int i = 0; i <= rcap + 1; i++) { // final drain with strong pops
     int before = history_size();
     apply(POP_S, 0);
